@@ -2,5 +2,5 @@
 Require Extraction. Require ExtrOcamlBasic.
 From NV Require Import Base.PySlice C06.Model C05.Model.
 Extraction Language OCaml.
-Extraction "c05_model.ml" run_reorient run_slicer run_sequence run_csequence tag_conv run_apply run_flip_axis run_four_to_three run_squeeze run_concat43 run_enforce_diag slice_affine check_slicing run_canonical_hyp inv_ornt_aff
+Extraction "c05_model.ml" run_reorient run_slicer run_file_slicer run_sequence run_csequence tag_conv run_apply run_flip_axis run_four_to_three run_squeeze run_concat43 run_enforce_diag slice_affine check_slicing run_canonical_hyp inv_ornt_aff
   ornt_transform ornt_compose ornt2axcodes axcodes2ornt ras_labels io_loop all48 apply_orientation src_spec.
